@@ -110,7 +110,8 @@ impl fmt::Display for AccountDeclaration<'_> {
 impl fmt::Display for AccountDetail<'_> {
     fn fmt(&self, f: &mut fmt::Formatter<'_>) -> fmt::Result {
         match self {
-            AccountDetail::Comment(v) => LineWrapStr::wrap("    ; ", v).fmt(f),
+            // The comment text keeps everything after the prefix, including the leading space.
+            AccountDetail::Comment(v) => LineWrapStr::wrap("    ;", v).fmt(f),
             AccountDetail::Note(v) => LineWrapStr::wrap("    note ", v).fmt(f),
             AccountDetail::Alias(v) => writeln!(f, "    alias {}", v),
         }
@@ -129,7 +130,8 @@ impl fmt::Display for WithContext<'_, CommodityDeclaration<'_>> {
 impl fmt::Display for WithContext<'_, CommodityDetail<'_>> {
     fn fmt(&self, f: &mut fmt::Formatter<'_>) -> fmt::Result {
         match self.value {
-            CommodityDetail::Comment(v) => LineWrapStr::wrap("    ; ", v).fmt(f),
+            // The comment text keeps everything after the prefix, including the leading space.
+            CommodityDetail::Comment(v) => LineWrapStr::wrap("    ;", v).fmt(f),
             CommodityDetail::Note(v) => LineWrapStr::wrap("    note ", v).fmt(f),
             CommodityDetail::Alias(v) => writeln!(f, "    alias {}", v),
             CommodityDetail::Format(v) => writeln!(f, "    format {}", self.pass_context(v)),
@@ -457,6 +459,36 @@ mod tests {
         assert_eq!(
             "end apply tag\n",
             format!("{}", ctx.as_display(&plain::LedgerEntry::EndApplyTag))
+        );
+    }
+
+    #[test]
+    fn display_declaration_comment_is_not_padded() {
+        // The parser keeps the text right after the comment prefix,
+        // printing must not add another space in front of it.
+        let ctx = DisplayContext::default();
+        assert_eq!(
+            concat!("account Foo\n", "    ; c1\n", "    ;c2\n", "    note n1\n"),
+            format!(
+                "{}",
+                ctx.as_display(&plain::LedgerEntry::Account(AccountDeclaration {
+                    name: Cow::Borrowed("Foo"),
+                    details: vec![
+                        AccountDetail::Comment(Cow::Borrowed(" c1\nc2\n")),
+                        AccountDetail::Note(Cow::Borrowed("n1\n")),
+                    ],
+                }))
+            )
+        );
+        assert_eq!(
+            concat!("commodity USD\n", "    ; c1\n"),
+            format!(
+                "{}",
+                ctx.as_display(&plain::LedgerEntry::Commodity(CommodityDeclaration {
+                    name: Cow::Borrowed("USD"),
+                    details: vec![CommodityDetail::Comment(Cow::Borrowed(" c1\n"))],
+                }))
+            )
         );
     }
 
